@@ -161,7 +161,12 @@ def _list2msa(msa_lines, ids=False, header=True, normalize=False, **keywords):
                     if not merge:
                         k += 1
             else:
-                d[line[idx].lower()] = line[idx + 1:]
+                values = line[idx + 1:]
+                if line[idx] == 'CONSENSUS':
+                    # msa2str pads the consensus line to the width of the alignment
+                    while values and values[-1] == '':
+                        values = values[:-1]
+                d[line[idx].lower()] = values
 
         elif line[0] not in ['LOCAL', 'SWAPS', 'MERGE', 'COMPLEX', '0']:
             if ids:
